@@ -10,5 +10,6 @@ INVARIANT TypeOK
 INVARIANT Agreement
 INVARIANT ExactlyOneSetSucceeds
 PROPERTY WriteOnce
+PROPERTY Linearizable
 PROPERTY Progress
 CHECK_DEADLOCK TRUE
